@@ -18,6 +18,7 @@ func CompileToGetDecoder(typ *runtime.Type) (Decoder, error) {
 
 	index := (typeptr - typeAddr.BaseTypeAddr) >> typeAddr.AddrShift
 	if dec := cachedDecoder[index]; dec != nil {
+		verifDecoder(typeptr, dec, int(index))
 		return dec, nil
 	}
 
@@ -25,6 +26,8 @@ func CompileToGetDecoder(typ *runtime.Type) (Decoder, error) {
 	if err != nil {
 		return nil, err
 	}
+	verifDecoder(typeptr, dec, int(index))
+	verifYield("dec-cache:compiled")
 	cachedDecoder[index] = dec
 	return dec, nil
 }
